@@ -8,6 +8,7 @@ import Blue.Driver.C05
 import Blue.Driver.C16
 import Blue.Driver.C11
 import Blue.Driver.C14
+import Blue.Driver.C04
 import Blue.Driver.C01
 open Blue.Driver
 
@@ -15,6 +16,7 @@ def dispatch (toks : List String) : String :=
   match toks with
   | "setsum" :: rest => Blue.Driver.C14.handle rest
   | "kvs" :: rest => Blue.Driver.C01.handle rest
+  | "ledger" :: rest => Blue.Driver.C04.handle rest
   | "cur" :: rest => Blue.Driver.C11.handle rest
   | "tk1" :: rest => Blue.Driver.C16.K1.handle rest
   | "tk2" :: rest => Blue.Driver.C16.K2.handle rest
